@@ -136,6 +136,45 @@ func jobC11(c *rt.Ctx) {
 			}
 		}
 	}
+	// caller buffers refilled between calls: one scalar buffer and one point buffer, on the base-point
+	// path and the generic path in turn; every result is the RFC 7748 value for the bytes passed at
+	// that call
+	c.Require("buffer-reuse")
+	if c.Take() {
+		c.Class("buffer-reuse")
+		c.Distinct("x25519-bufreuse", true)
+		sb, pb := make([]byte, 32), make([]byte, 32)
+		for step := 0; step < 24; step++ {
+			hs := sha512.Sum512([]byte{0x49, byte(step / 2)}) // the same scalar twice in a row, then another
+			copy(sb, hs[:32])
+			var pt []byte
+			switch step % 4 {
+			case 0, 1:
+				pt = Basepoint
+			case 2:
+				copy(pb, hs[32:])
+				pt = pb
+			default:
+				copy(pb, nine)
+				pt = pb
+			}
+			want := ref.X25519(hs[:32], pt)
+			got, err := X25519(sb, pt)
+			c.Step(1)
+			if bytes.Equal(want, make([]byte, 32)) {
+				want = nil
+			}
+			if (err != nil) != (want == nil) || !bytes.Equal(got, want) {
+				c.Violation("C11 buffer-reuse", fmt.Sprintf("step %d: X25519 from a reused scalar buffer (point kind %d) = %x, %v; RFC 7748: %x", step, step%4, got, err, want), map[string]interface{}{"step": step, "scalar": ref.Hex(sb), "point": ref.Hex(pt)})
+				break
+			}
+			if step%5 == 4 {
+				for i := range sb {
+					sb[i] = 0
+				}
+			}
+		}
+	}
 	// held results of X25519 (fast and generic path alternating), as for the conversions in C12
 	c.Require("held-results")
 	if c.Take() {
